@@ -53,8 +53,99 @@ func succReturnsOnlyErrors(fn *ssa.Function, b *ssa.BasicBlock, ei int) (bool, [
 	return !found, path
 }
 
+// runC17Wildcard: C17.5.  A template with anything after a '**' is invalid (the trie lets '**'
+// swallow the rest of the path, so what follows could never be reached).  The parser notes '**'
+// in a flag when a segment is parsed; every iteration that goes on to parse a further segment
+// must test that flag and fail.
+func runC17Wildcard(c *Ctx) {
+	p := c.P
+	c.Rule("C17.5", "no path segment can follow a double wildcard: each further-segment iteration tests the seen-'**' flag and errors", 2)
+	flag := p.MustField("pathParser", "seenDoubleStar")
+	// the segment parser: the function that sets the flag
+	var segParsers []*ssa.Function
+	for _, fn := range p.Funcs {
+		for _, st := range StoresToField(fn, flag) {
+			if b, ok := ConstBool(st.Val); ok && b {
+				segParsers = append(segParsers, fn)
+				break
+			}
+		}
+	}
+	if len(segParsers) == 0 {
+		c.Bad("C17.5", "pathParser", "flag-set", token.NoPos, "no function records that a double wildcard was seen: shape changed")
+		return
+	}
+	// flagEdge: the If tests the flag; returns the successor index on which the flag is set
+	flagEdge := func(in ssa.Instruction) (int, bool) {
+		iff, ok := in.(*ssa.If)
+		if !ok {
+			return 0, false
+		}
+		cond, neg := iff.Cond, false
+		for {
+			if u, isU := cond.(*ssa.UnOp); isU && u.Op == token.NOT {
+				cond, neg = u.X, !neg
+				continue
+			}
+			break
+		}
+		if LoadedField(cond) != flag {
+			return 0, false
+		}
+		if neg {
+			return 1, true
+		}
+		return 0, true
+	}
+	isFlagIf := func(in ssa.Instruction) bool {
+		_, ok := flagEdge(in)
+		return ok
+	}
+	nLoops := 0
+	for _, fn := range p.Funcs {
+		if !p.inScope(fn) {
+			continue
+		}
+		for _, call := range Calls(fn) {
+			isSeg := false
+			for _, sp := range segParsers {
+				if call.Common().StaticCallee() == sp {
+					isSeg = true
+				}
+			}
+			if !isSeg {
+				continue
+			}
+			// is the call on a cycle?
+			onCycle, _ := PathQuery{Target: func(in ssa.Instruction) bool { return in == ssa.Instruction(call) }}.Search(fn, call)
+			if !onCycle {
+				continue
+			}
+			nLoops++
+			unguarded, path := PathQuery{Target: func(in ssa.Instruction) bool { return in == ssa.Instruction(call) }, Avoid: isFlagIf}.Search(fn, call)
+			c.Check(!unguarded, "C17.5", FuncName(fn), "further-segment-tests-flag", call.Pos(),
+				"every way round the segment loop passes the test of the seen-'**' flag",
+				"the segment loop can start a further segment without testing whether a '**' was already seen ("+witnessString(p, path)+"): templates like /a/**/** are accepted and their bindings are unreachable")
+			ei := errorResultIndex(fn.Signature)
+			ForEachInstr(fn, func(in ssa.Instruction) {
+				if !isFlagIf(in) || ei < 0 {
+					return
+				}
+				si, _ := flagEdge(in)
+				okErr, w := succReturnsOnlyErrors(fn, in.Block().Succs[si], ei)
+				c.Check(okErr, "C17.5", FuncName(fn), "flag-edge-errors", in.Pos(),
+					"the seen-'**' edge only leads to error returns", "the seen-'**' edge can return success: "+witnessString(p, w))
+			})
+		}
+	}
+	if nLoops == 0 {
+		c.Bad("C17.5", "pathParser", "segment-loop", token.NoPos, "no loop over path segments found: shape changed")
+	}
+}
+
 func runC17(c *Ctx) {
 	p := c.P
+	defer runC17Wildcard(c)
 	ctor := p.MustFunc("NewTranscoder")
 	reach := p.Reach(ctor)
 
